@@ -186,6 +186,23 @@ def gen(run):
             if c["family"] != "fk-arm-shapes":
                 c["family"] = c["family"] + "/" + tag
                 fams.append(c)
+    # numbers as values and as reference arguments (module Numbers): every spelling shows the number's plain decimal expansion, also
+    # when it arrives through a reference between text and a variable.  All portable projects at L1; the first and the last project of
+    # literals (the extremes are in the last one) and the first project of arguments also go through the generated code (L2)
+    nums, _ = loadfam.gen_cases(run, "MC_Numbers", "MC_Numbers.cfg", workers=1)
+    nums = [c for c in nums if c["family"] == "numbers"]
+    lits = [c for c in nums if "tgt" not in c["abs"]["P"]["vals"]["en"]]
+    args = [c for c in nums if "tgt" in c["abs"]["P"]["vals"]["en"]]
+    if not lits or not args:
+        raise vp.ToolError("MC_Numbers produced no projects")
+    ext = [c for c in lits if any(len(e.get("disp", [])) > 300 for e in c["abs"]["P"]["vals"]["en"].values())]     # largest / smallest double
+    if not ext:
+        raise vp.ToolError("MC_Numbers: the project with the extremes is missing")
+    l2 = [id(lits[0]), id(ext[0]), id(args[0])]
+    for c in nums:
+        if id(c) not in l2:
+            c["family"] = "numbers/l1"
+    fams += nums
     return graphs, fams
 
 
